@@ -7,7 +7,7 @@ Driver handler for the `err` model (C07).
 `ops <dbSet> <schemaSet> <vars ,-sep> <op ;-sep>` with
    op := o | c | d:<call> (checked description) | u:<calls> (execute on another cursor: outcome, this cursor's sqlstate untouched) | x:<undefinedVar>:<parseError>:<var>:<call ,-sep>      var := - | s.NAME | u.NAME
    call := <noDb><noSchema>.<sqlcode>.<ctx>.<followup codes +-sep or ->   ctx := - | d (USE DATABASE X) | s (USE SCHEMA Y) | q (USE SCHEMA X.Y) | k (DROP SCHEMA <current>)
-   sqlcode := 0 accept | 1 binder | 2 catalog | 3 txNoActive | 4 txOther | 5 parser | 6 conversion | 7 constraint | 8 connection
+   sqlcode := 0 accept | 9 accept (pure query) | 1 binder | 2 catalog | 3 txNoActive | 4 txOther | 5 parser | 6 conversion | 7 constraint | 8 connection
  → impl=<per op: outcome|sqlstate|changed|finding ;-sep>
 outcome := ok | P:<errno>:<sqlstate> | D:<errno>:<sqlstate> | R:<duck class> | Y:<python class>
 -/
@@ -58,7 +58,7 @@ def sqlCode : Nat → Option DuckExc
 def engQ (d : Nat) (q : Nat) : Except DuckExc Nat :=
   match sqlCode q with
   | some e => .error e
-  | none => .ok (d + 1)
+  | none => if q == 9 then .ok d else .ok (d + 1)      -- 9 = accepted, a pure query: no state change
 
 def parseCall (s : String) : Option (Call Nat) :=
   match s.splitOn "." with
@@ -83,7 +83,8 @@ def parseVar (s : String) : Option VarUpdate :=
   else none
 
 inductive DrvOp
-  | exec (usesVar : Option String) (s : Stmt Nat)    -- `usesVar`: the text mentions `$NAME`
+  | exec (usesVar : Option String) (s : Stmt Nat) (cteRef : Bool := false)
+      -- `usesVar`: the text mentions `$NAME`; `cteRef`: the table expression the pre-check looks at is a reference to the statement's own CTE
   | other
   | close
   | connUse (s : Stmt Nat)                            -- an execute on ANOTHER cursor of the connection (conn.commit(), execute_string, write_pandas …)
@@ -97,6 +98,11 @@ def parseOp (s : String) : Option DrvOp :=
     | ["u", calls] => do
       let cs ← (calls.splitOn ",").mapM parseCall
       pure (.connUse { calls := cs })
+    | ["X", u, p, v, calls] => do
+      let vu ← parseVar v
+      let cs ← (if calls == "-" then some [] else (calls.splitOn ",").mapM parseCall)
+      let uses := if u.startsWith "v." then some (u.drop 2).toString else none
+      pure (.exec uses { undefinedVar := u == "1", parseError := p == "1", varUpdate := vu, calls := cs } true)
     | ["x", u, p, v, calls] => do
       let vu ← parseVar v
       let cs ← (if calls == "-" then some [] else (calls.splitOn ",").mapM parseCall)
@@ -108,13 +114,15 @@ def parseOp (s : String) : Option DrvOp :=
     undefined is decided from the model's own session variables (`Variables.inline_variables`). -/
 def traceOps (w : World Nat) (st : Option String) : List DrvOp → List String
   | [] => []
-  | .exec uses s0 :: ops =>
+  | .exec uses s0 cte :: ops =>
     let s : Stmt Nat := match uses with
       | some n => { s0 with undefinedVar := !(w.sess.vars.any (·.1 == n)) }
       | none => s0
     let r := execute engQ w s
     let changed := r.world.duck != w.duck || r.world.sess != w.sess
-    s!"{encOutcome r.outcome}|{r.sqlstate.getD "-"}|{encBool changed}|{(stmtFinding w.sess s).getD "-"}" :: traceOps r.world r.sqlstate ops
+    let key := if cte && (r.outcome == .programming c90105 || r.outcome == .programming c90106) then "C07/cte-reference-needs-context"
+               else (stmtFinding w.sess s).getD "-"
+    s!"{encOutcome r.outcome}|{r.sqlstate.getD "-"}|{encBool changed}|{key}" :: traceOps r.world r.sqlstate ops
   | .connUse s :: ops =>
     let r := execute engQ w s
     s!"{encOutcome r.outcome}|{st.getD "-"}|{encBool (r.world.duck != w.duck)}|-" :: traceOps r.world st ops
